@@ -168,6 +168,10 @@ Fixpoint feed_chunks (max_size : N) (buf : bytes) (chunks : list bytes) : list c
       else let '(ms', rest', err') := feed_chunks max_size rest cs in (ms ++ ms', rest', err')
   end.
 
+(** [Decoder::decode_eof] (tokio-util's default, which the codec keeps): at the end of the stream
+    leftover bytes are an error *)
+Definition eof_error (rest : bytes) : bool := match rest with [] => false | _ => true end.
+
 (** ---- author heads: Vec<(u64, [u8;32])> ---- *)
 Definition enc_head (h : N * bytes) : bytes := enc_varint (fst h) ++ snd h.
 Definition dec_head : parser (N * bytes) := fun b =>
